@@ -8,19 +8,14 @@ _COMPONENTS = [
     "gun/http", "gun/http2", "gun/connect", "gun/http/scenario", "gun/http2/scenario", "gun/grpc", "gun/grpc/scenario",
 ]
 
-import os as _os
-
-# TestDiscardOverflowDefault needs the hook cli.ReadConfigForVerif (see harness/c17/cli_test.go)
-_CLI_HOOK = _os.path.exists("/repo/cli/verif_export.go")
-
 SPEC = {
     "pkg": "c17",
     "tests": [
         {"name": "TestValid", "quick": 1600, "thorough": 64000, "shards_quick": 4, "shards_thorough": 16, "timeout": 1800},
         {"name": "TestMutations", "quick": 4800, "thorough": 192000, "shards_quick": 6, "shards_thorough": 16, "timeout": 1800},
         {"name": "TestPlaceholders", "quick": 2400, "thorough": 96000, "shards_quick": 4, "shards_thorough": 16, "timeout": 1800},
-    ] + ([{"name": "TestDiscardOverflowDefault", "quick": 400, "thorough": 16000, "shards_quick": 2, "shards_thorough": 16,
-           "timeout": 1800}] if _CLI_HOOK else []),
+        {"name": "TestDiscardOverflowDefault", "quick": 400, "thorough": 16000, "shards_quick": 2, "shards_thorough": 16, "timeout": 1800},
+    ],
     "rule": ("confgen reflects over the Go config struct of every component registered by core/import, phttp/import and grpc/import "
              "(34 (kind, name) pairs + the pool struct + the CLI root struct) and draws valid CLI-level configs: 1-3 pools, each with a "
              "gun / ammo / result / rps / startup section of a sampled component, every optional key given with probability 0.35, nested "
